@@ -131,6 +131,7 @@ type script struct {
 	Err    bool     `json:"err"`
 	// kind "slowq"
 	Backend string `json:"backend"`
+	Sd      bool   `json:"sd"` // kind bulk: shadow delete
 	Total   int    `json:"total"`
 	WaitMs  int    `json:"waitms"`
 }
@@ -1051,6 +1052,64 @@ drain:
 	tr.Flush()
 }
 
+// runBulkPurge: sc.Total records below one prefix (more than a storage handles in one batch) and three outside
+// it, then Purge of the prefix: a plain map has lost exactly the records below the prefix afterwards.
+func runBulkPurge(tr *vio.Trace, h int, sc *script) {
+	name := fmt.Sprintf("dbx-bulk-%s-%v", sc.Backend, sc.Sd)
+	if _, err := database.Register(&database.Database{Name: name, Description: "C02 bulk purge", StorageType: sc.Backend, ShadowDelete: sc.Sd}); err != nil {
+		tr.EmitRaw(map[string]any{"e": "skip", "h": h, "why": err.Error()})
+		return
+	}
+	i := database.NewInterface(&database.Options{Local: true, Internal: true})
+	ev := map[string]any{"e": "bulk", "h": h, "b": sc.Backend, "sd": sc.Sd, "total": sc.Total, "purged": -1, "left": -1, "controls": -1,
+		"v": "nil", "panic": ""}
+	defer func() {
+		if p := recover(); p != nil {
+			ev["panic"] = fmt.Sprint(p)
+		}
+		tr.EmitRaw(ev)
+		tr.Flush()
+	}()
+	put := i.PutMany(name)
+	for k := 0; k < sc.Total+3; k++ {
+		r := &Rec{I1: int64(k % 5)}
+		if k < sc.Total {
+			r.SetKey(fmt.Sprintf("%s:bulk/%06d", name, k))
+		} else {
+			r.SetKey(fmt.Sprintf("%s:keep/%d", name, k))
+		}
+		if err := put(r); err != nil {
+			ev["v"], ev["panic"] = errClass(err), "batch put refused: "+err.Error()
+			return
+		}
+	}
+	if err := put(nil); err != nil {
+		ev["v"], ev["panic"] = errClass(err), "batch put failed: "+err.Error()
+		return
+	}
+	ctx, cancel := context.WithTimeout(context.Background(), 60*time.Second)
+	defer cancel()
+	n, err := i.Purge(ctx, query.New(name+":bulk/"))
+	ev["v"] = errClass(err)
+	ev["purged"] = n
+	count := func(prefix string) int {
+		it, err := i.Query(query.New(name + ":" + prefix))
+		if err != nil {
+			return -1
+		}
+		c := 0
+		for range it.Next {
+			c++
+		}
+		if it.Err() != nil {
+			return -1
+		}
+		return c
+	}
+	ev["left"] = count("bulk/")
+	ev["controls"] = count("keep/")
+}
+
 // ---------------------------------------------------------------- main
 
 func main() {
@@ -1097,6 +1156,10 @@ func main() {
 		}
 		if sc.Kind == "slowq" {
 			runSlowQuery(tr, h, &sc)
+			return nil
+		}
+		if sc.Kind == "bulk" {
+			runBulkPurge(tr, h, &sc)
 			return nil
 		}
 		for ci, c := range sc.Cfgs {
